@@ -54,6 +54,9 @@ func c07Future(tag string) time.Time {
 	delta := vI64(tag + "_delta")
 	vAssume(delta > 60)
 	vAssume(delta < 1<<62-1<<41)
+	// the engine's clock and the real one differ by less than 2^41 s: keep clear of
+	// the 2^53 limit by that much so that both are on the same side of it
+	vAssume(vOr(delta < 1<<53-1<<42, delta > 1<<53+1<<42))
 	sec := c07Now + delta
 	nsec := int64(0)
 	if vChoose(tag+"_fraction", 2) == 1 {
@@ -64,10 +67,10 @@ func c07Future(tag string) time.Time {
 
 // c07Any: any instant whatever (past, year 1, far future), whole seconds.
 func c07Any(tag string) time.Time {
-	delta := vI64(tag + "_delta")
-	vAssume(delta > -(1 << 62))
-	vAssume(delta < 1<<62-1<<41)
-	return time.Unix(c07Now+delta, 0)
+	sec := vI64(tag + "_sec") // absolute: these options do not look at the clock
+	vAssume(sec > -(1 << 62))
+	vAssume(sec < 1<<62)
+	return time.Unix(sec, 0)
 }
 
 func c07Cmd() command.Command {
